@@ -47,3 +47,7 @@ Definition spec_allpaths_win (T : Z) (h : nat) (from to : Z) : list Z :=
 (** what the checker evaluates *)
 Definition check_allpaths (T : Z) (h : nat) (from to : Z) : list Z :=
   if (h <=? 10)%nat then spec_allpaths T h from to else spec_allpaths_win T h from to.
+
+(** the words of the stored nodes below [q] (the nodes that have [q] as a prefix), in pre-order *)
+Definition spec_subtree (T : Z) (h : nat) (q : node) : list Z :=
+  map (enc h) (filter (stored T) (map (app q) (all_nodes (h - length q)))).
